@@ -399,7 +399,11 @@ class WithOptions(Evaluatable[B]):
         """The part of a key of the mixed options that comes from the caller."""
         if not dotted_key_exists(key, self.options):
             return {key}
-        if not dotted_key_exists(key, options):
+        try:
+            given_exists = dotted_key_exists(key, options)
+        except TypeError:  # the caller holds a scalar where the key expects a section
+            given_exists = False
+        if not given_exists:
             return set()
         if not self.force:
             return {key}
